@@ -121,7 +121,7 @@ class Tamperer(Forger):
             w.poisoned = True
         else:
             self._r('tamper_rejected')
-            if h is not None and h['next'] == R.P_SK and h['exch'] != 34 and had_keys and outcome == 'ok' and op['kind'] in ('flip',):
+            if h is not None and h['exch'] != 34 and had_keys and outcome == 'ok' and op['kind'] in ('flip', 'outer_flip'):
                 # the Encrypted payload is still announced as first payload: the parser saw it and must have refused
                 chain_ok = True
                 try:
@@ -210,14 +210,23 @@ def run(scenario):
             h, pls, s = opened
             try:
                 a, e = (s.keys['ai'], s.keys['ei']) if h['I'] else (s.keys['ar'], s.keys['er'])
+                # ... and, for responses (requests are re-fed to the wiretap, which insists on SK alone), sometimes a Vendor ID or a status
+                # notification in the clear in front of the Encrypted payload, covered by the checksum
+                outer = None
+                if h['R'] and rr.random() < 0.35:
+                    outer = [rr.choice([{'type': R.P_VENDOR, 'data': b'over-padded peer'},
+                                        {'type': R.P_NOTIFY, 'proto': 0, 'ntype': 40001, 'spi': b'', 'data': b'\x01\x02'}])]
                 new = R.sk_seal({'spi_i': h['spi_i'], 'spi_r': h['spi_r'], 'exch': h['exch'], 'I': h['I'], 'R': h['R'], 'id': h['id']}, pls, s.suite, a, e,
-                                bytes(rr.getrandbits(8) for _ in range(16)), pad_extra=rr.choice([0, 0, 1, 2, 5, 15]),
+                                bytes(rr.getrandbits(8) for _ in range(16)), outer=outer, pad_extra=rr.choice([0, 0, 1, 2, 5, 15]),
                                 pad_fill=rr.choice([None, lambda n: bytes(rr.getrandbits(8) for _ in range(n)), lambda n: b'\xff' * n,
                                                     lambda n: bytes([n] * n), lambda n: bytes(range(1, n + 1))]))
-                R.sk_open(new, s.suite, a, e)
+                if outer is None:
+                    R.sk_open(new, s.suite, a, e)
             except Exception:
                 return None
             ctx['repadded'][sha(new)] = (meta['sender'], EXCH.get(h['exch']), h['id'])
+            if outer is not None:
+                ctx.setdefault('outer_form', set()).add(sha(new))
             return [(new, 0.0)]
         repad.label = 'over_padded'
         ip.rules.append(repad)
@@ -239,6 +248,12 @@ def run(scenario):
                 if got is None:
                     continue
                 reach['over_padded_judged'] = reach.get('over_padded_judged', 0) + 1
+                if got[0] == 'ok' and not got[1] and got[3] and hsh in ctx['same_keys'] and hsh in ctx.get('outer_form', ()):
+                    return w.violation(PROP, 'authentic_protected_message_not_recognised', {'exchange': exch},
+                                       f'a protected {exch} id {mid} of {sender}, re-sealed under the same keys with one cleartext payload in front of the '
+                                       f'Encrypted payload (legal: RFC 7296 3.14), was parsed without its Encrypted payload being verified and opened')
+                if hsh in ctx.get('outer_form', ()):
+                    reach['outer_payload_form_judged'] = reach.get('outer_payload_form_judged', 0) + 1
                 if got[0] != 'ok' and got[3] and hsh in ctx['same_keys']:
                     return w.violation(PROP, 'authentic_protected_message_rejected', {'exchange': exch, 'error': got[0], 'padding': 'more than the minimum'},
                                        f'a protected {exch} id {mid} of {sender}, re-sealed with the same payloads under the same keys but with whole '
